@@ -1,3 +1,238 @@
 (* C12Proofs.v — lemmas for C12 (interleavings of initialising / document-writing actors). *)
-From SV Require Import Base Json MD5 Canon FS Proc Crash CorrC11 CorrC12.
+From SV Require Import Base Json MD5 Canon FS Proc Crash WsNames CorrC11 CorrC12.
 Import ListNotations.
+
+(* ------------------------------------------------------------------ confinement of the actor programs *)
+Lemma under_snoc_self : forall (p : path) n, under (p ++ [n]) p = false.
+Proof.
+  intros p n. destruct (under (p ++ [n]) p) eqn:E; auto. apply under_spec in E. destruct E as [r E].
+  rewrite <- app_assoc in E. rewrite <- (app_nil_r p) in E at 1. apply app_inv_head in E. discriminate.
+Qed.
+
+Lemma tmpname_snoc : forall tag (d : path) n, tmpname tag (d ++ [n]) = d ++ [TMPPFX ++ tag ++ n].
+Proof. intros. unfold tmpname. rewrite parent_snoc, last_last. reflexivity. Qed.
+
+Ltac conf := unfold confined; cbn [call_paths is_listdir forallb negb]; rewrite ?under_app, ?under_refl; reflexivity.
+
+Lemma makedirs_p_unfold : forall A fuel ok p (k : fres unit -> prog A),
+  makedirs_p (S fuel) ok p k =
+  let leaf :=
+    Do (CMkdir p) (fun r =>
+      match r with
+      | FOk _ => k (FOk tt)
+      | FErr e =>
+          if ok then Do (CStat p) (fun r2 => if is_dir_r r2 then k (FOk tt) else k (FErr e))
+          else k (FErr e)
+      end) in
+  match parent p with
+  | [] | [_] => leaf
+  | hd =>
+      Do (CStat hd) (fun rh =>
+        if exists_r rh then leaf
+        else makedirs_p fuel ok hd (fun r =>
+               match r with
+               | FOk _ | FErr EEXIST => leaf
+               | FErr e => k (FErr e)
+               end))
+  end.
+Proof. reflexivity. Qed.
+
+Section CONFINED.
+  Variable frepr : fl -> str.
+  Variable atomic : bool.
+  Variable tag : str.
+  Variable f0 : fs.
+  Variable w1 w2 : str.
+  Variable wr : path.
+  Let ws : path := w1 :: w2 :: wr.
+  Hypothesis Hws : get f0 ws = Some Dir.
+  Variable i : str.
+  Let d : path := ws ++ [i].
+  Context {A : Type}.
+
+  Lemma pc_json_save : forall at_ n v (k : fres unit -> prog A),
+    (forall x, prog_confined f0 d (k x)) -> prog_confined f0 d (json_save frepr tag at_ (d ++ [n]) v k).
+  Proof.
+    intros at_ n v k Hk. unfold json_save. rewrite tmpname_snoc.
+    destruct at_.
+    - apply pc_do; [conf|]. intros [v1|e1]; [|apply Hk].
+      apply pc_do; [conf|]. intros rw. apply pc_do; [conf|]. intros rc.
+      destruct rw, rc; try apply Hk. apply pc_do; [conf|]. intros [v2|e2]; apply Hk.
+    - apply pc_do; [conf|]. intros [v1|e1]; [|apply Hk].
+      apply pc_do; [conf|]. intros rw. apply pc_do; [conf|]. intros rc.
+      destruct rw, rc; apply Hk.
+  Qed.
+
+  Lemma pc_sp_load : forall n j (k : json + perr -> prog A),
+    (forall x, prog_confined f0 d (k x)) -> prog_confined f0 d (sp_load frepr (d ++ [n]) j k).
+  Proof.
+    intros n j k Hk. unfold sp_load. apply pc_do; [conf|]. intros [v|e].
+    - destruct v; try apply Hk. destruct (c_json c); [|apply Hk]. destruct (str_eqb _ _); apply Hk.
+    - destruct e; apply Hk.
+  Qed.
+
+  Lemma parent_d : parent d = ws.
+  Proof. unfold d. apply parent_snoc. Qed.
+
+  Lemma pc_mkdir_p : forall (k : fres unit -> prog A),
+    (forall x, prog_confined f0 d (k x)) -> prog_confined f0 d (mkdir_p d k).
+  Proof.
+    intros k Hk. unfold mkdir_p. apply pc_do; [conf|]. intros r. destruct (is_dir_r r); [apply Hk|].
+    assert (Hleaf : prog_confined f0 d
+      (Do (CMkdir d) (fun r0 => match r0 with
+                                | FOk _ => k (FOk tt)
+                                | FErr e => Do (CStat d) (fun r2 => if is_dir_r r2 then k (FOk tt) else k (FErr e))
+                                end))).
+    { apply pc_do; [conf|]. intros [v|e]; [apply Hk|]. apply pc_do; [conf|]. intros r2. destruct (is_dir_r r2); apply Hk. }
+    rewrite makedirs_p_unfold, parent_d. unfold ws at 1. cbv zeta. fold ws.
+    apply pc_anc.
+    - unfold d. apply under_app.
+    - unfold d. apply under_snoc_self.
+    - fold ws. rewrite Hws. simpl. exact Hleaf.
+  Qed.
+
+  Lemma pc_sp_save : forall n v force (k : unit + perr -> prog A),
+    (forall x, prog_confined f0 d (k x)) -> prog_confined f0 d (sp_save frepr atomic tag (d ++ [n]) v force k).
+  Proof.
+    intros n v force k Hk. unfold sp_save.
+    assert (Hh : forall r : fres unit, prog_confined f0 d
+              match r with
+              | FOk _ => k (inl tt)
+              | FErr e => if errno_eqb e EEXIST || errno_eqb e EACCES then k (inl tt)
+                          else Do (CUnlink (d ++ [n])) (fun _ => k (inr (POs e)))
+              end).
+    { intros [u|e]; [apply Hk|]. destruct (errno_eqb e EEXIST || errno_eqb e EACCES); [apply Hk|].
+      apply pc_do; [conf|]. intros _. apply Hk. }
+    destruct force.
+    - apply pc_json_save. exact Hh.
+    - apply pc_do; [conf|]. intros r. destruct (is_file_r r); [apply (Hh (FOk tt))|].
+      apply pc_json_save. exact Hh.
+  Qed.
+
+  Lemma pc_job_init : forall sp force (k : unit + perr -> prog A),
+    calc_id frepr sp = i ->
+    (forall x, prog_confined f0 d (k x)) -> prog_confined f0 d (job_init frepr atomic tag ws sp force k).
+  Proof.
+    intros sp force k Hi Hk. unfold job_init. rewrite Hi. fold d.
+    replace (ws ++ [i; SPF]) with (d ++ [SPF]) by (unfold d; rewrite <- app_assoc; reflexivity).
+    apply pc_sp_load. intros [v|e]; [apply Hk|].
+    apply pc_mkdir_p. intros [u|e1]; [|apply Hk].
+    apply pc_sp_save. intros [u2|e2]; [|apply Hk].
+    apply pc_sp_load. intros [v3|e3]; apply Hk.
+  Qed.
+
+  Lemma pc_doc_access : forall sp (k : unit + perr -> prog A),
+    calc_id frepr sp = i ->
+    (forall x, prog_confined f0 d (k x)) -> prog_confined f0 d (doc_access frepr atomic tag ws sp k).
+  Proof.
+    intros sp k Hi Hk. unfold doc_access. rewrite Hi. fold d. apply pc_do; [conf|]. intros r.
+    destruct (is_dir_r r); [apply Hk|]. apply pc_job_init; auto.
+  Qed.
+
+  Lemma pc_doc_load : forall n (k : json + perr -> prog A),
+    (forall x, prog_confined f0 d (k x)) -> prog_confined f0 d (doc_load (d ++ [n]) k).
+  Proof.
+    intros n k Hk. unfold doc_load. apply pc_do; [conf|]. intros [v|e].
+    - destruct v; try apply Hk. destruct (c_json c); apply Hk.
+    - destruct e; apply Hk.
+  Qed.
+
+  Lemma pc_doc_store : forall n v (k : unit + perr -> prog A),
+    (forall x, prog_confined f0 d (k x)) -> prog_confined f0 d (doc_store frepr tag (d ++ [n]) v k).
+  Proof.
+    intros n v k Hk. unfold doc_store. apply pc_json_save. intros [u|e]; apply Hk.
+  Qed.
+End CONFINED.
+
+(* the actions of an actor that works on its own job i only (Project() included: the workspace exists) *)
+Definition own_act (frepr : fl -> str) (i : str) (a : act) : Prop :=
+  match a with
+  | AProject => True
+  | AInit sp | ADocSet sp _ _ | ADocRead sp => calc_id frepr sp = i
+  | ALen | ARmWs => False
+  end.
+
+Lemma pc_actor : forall frepr atomic tag f0 w1 w2 wr i acts acc,
+  get f0 (w1 :: w2 :: wr) = Some Dir ->
+  Forall (own_act frepr i) acts ->
+  prog_confined f0 ((w1 :: w2 :: wr) ++ [i]) (actor_prog frepr atomic tag (w1 :: w2 :: wr) acts acc).
+Proof.
+  intros frepr atomic tag f0 w1 w2 wr i acts. set (ws := w1 :: w2 :: wr). set (d := ws ++ [i]).
+  induction acts as [|a acts IH]; intros acc Hws Hall; simpl.
+  - apply pc_ret.
+  - inversion Hall as [|a' acts' Ha Hrest]; subst.
+    assert (Hk : forall o, prog_confined f0 d (actor_prog frepr atomic tag ws acts (o :: acc))) by (intro o; apply IH; auto).
+    destruct a; simpl in Ha; try contradiction; unfold act_prog.
+    + (* Project(): stat of the workspace, an ancestor, which is a directory *)
+      unfold project_open. apply pc_anc.
+      * unfold d. apply under_app.
+      * unfold d. apply under_snoc_self.
+      * fold ws. rewrite Hws. simpl. apply Hk.
+    + apply (pc_job_init frepr atomic tag f0 w1 w2 wr Hws i); auto. intros [u|e]; [apply Hk|apply pc_raise].
+    + unfold docfile_of. rewrite Ha.
+      replace (ws ++ [i; DOCF]) with (d ++ [DOCF]) by (unfold d; rewrite <- app_assoc; reflexivity).
+      apply (pc_doc_access frepr atomic tag f0 w1 w2 wr Hws i); auto. intros [u|e]; [|apply pc_raise].
+      apply (pc_doc_load f0 w1 w2 wr i). intros [dd|e]; [|apply pc_raise].
+      apply (pc_doc_store frepr tag f0 w1 w2 wr i). intros [u2|e2]; [apply Hk|apply pc_raise].
+    + unfold docfile_of. rewrite Ha.
+      replace (ws ++ [i; DOCF]) with (d ++ [DOCF]) by (unfold d; rewrite <- app_assoc; reflexivity).
+      apply (pc_doc_access frepr atomic tag f0 w1 w2 wr Hws i); auto. intros [u|e]; [|apply pc_raise].
+      apply (pc_doc_load f0 w1 w2 wr i). intros [dd|e]; [apply Hk|apply pc_raise].
+Qed.
+
+(* ------------------------------------------------------------------ actors on different jobs commute *)
+Record aspec := { s_id : str; s_tag : str; s_acts : list act }.
+
+Definition spec_prog (frepr : fl -> str) (atomic : bool) (ws : path) (s : aspec) : prog (list aobs) :=
+  actor_prog frepr atomic (s_tag s) ws (s_acts s) [].
+
+Theorem docs_disjoint_jobs_lemma : forall frepr atomic f0 w1 w2 wr (specs : list aspec) sched,
+  let ws := w1 :: w2 :: wr in
+  get f0 ws = Some Dir ->
+  NoDup (map s_id specs) ->
+  (forall s, In s specs -> Forall (own_act frepr (s_id s)) (s_acts s)) ->
+  let ps := map (spec_prog frepr atomic ws) specs in
+  snd (interleave sched f0 ps) = snd (sequential f0 ps) /\
+  fs_eq (fst (interleave sched f0 ps)) (fst (sequential f0 ps)).
+Proof.
+  intros frepr atomic f0 w1 w2 wr specs sched ws Hws Hnd Hown ps.
+  apply (interleave_disjoint_seq _ (map (fun s => ws ++ [s_id s]) specs) ps f0 sched).
+  - unfold ps. rewrite !map_length. reflexivity.
+  - intros n d p Hd Hp. unfold ps in Hp. rewrite nth_error_map in Hd, Hp.
+    destruct (nth_error specs n) as [s|] eqn:Es; [|discriminate]. simpl in Hd, Hp.
+    injection Hd as <-. injection Hp as <-. unfold spec_prog. apply pc_actor; auto.
+    apply Hown. eapply nth_error_In; eauto.
+  - intros a b da db Hab Ha Hb. rewrite nth_error_map in Ha, Hb.
+    destruct (nth_error specs a) as [sa|] eqn:Ea; [|discriminate].
+    destruct (nth_error specs b) as [sb|] eqn:Eb; [|discriminate]. simpl in Ha, Hb.
+    injection Ha as <-. injection Hb as <-.
+    assert (Hne : s_id sa <> s_id sb).
+    { intro E. apply Hab. eapply (proj1 (NoDup_nth_error (map s_id specs))); eauto.
+      - apply nth_error_Some. rewrite nth_error_map, Ea. discriminate.
+      - rewrite !nth_error_map, Ea, Eb. simpl. congruence. }
+    split; [apply (sibling_not_under ws)|apply (sibling_not_under ws)]; auto.
+Qed.
+
+(* a read that follows a completed document write returns the written value *)
+Lemma doc_read_after_write_lemma : forall frepr tag (f f1 : fs) (file : path) (v : json),
+  run (doc_store frepr tag file v (fun r => match r with inl _ => Ret tt | inr e => Raise e end)) f = (f1, inl tt) ->
+  forall g, (forall q, q = file -> get g q = get f1 q) ->
+  snd (run (doc_load file (fun r => match r with inl d => Ret d | inr e => Raise e end)) g) = inl v.
+Proof.
+  intros frepr tag f f1 file v H g Hg.
+  assert (Hf : get f1 file = Some (File (jcontent frepr v))).
+  { unfold doc_store, json_save in H. simpl in H.
+    set (tmp := tmpname tag file) in *.
+    unfold exec_res in H. simpl in H.
+    destruct (write_file f tmp empty_content) as [fa|ea] eqn:E1; simpl in H; [|discriminate].
+    unfold write_open in H. rewrite (get_write_file _ _ _ _ tmp E1), path_eqb_refl in H.
+    destruct (write_file fa tmp (jcontent frepr v)) as [fb|eb] eqn:E2; simpl in H; [|discriminate].
+    destruct (rename fb tmp file) as [fc|ec] eqn:E3; simpl in H; [|discriminate].
+    injection H as <-.
+    assert (Gt : get fb tmp = Some (File (jcontent frepr v))) by (rewrite (get_write_file _ _ _ _ tmp E2), path_eqb_refl; reflexivity).
+    destruct (path_eqb tmp file) eqn:Etf.
+    - apply path_eqb_eq in Etf. rewrite <- Etf in *. unfold rename in E3. rewrite Gt in E3.
+      destruct (get fb (parent tmp)) as [[c|]|]; try discriminate. rewrite path_eqb_refl in E3. injection E3 as <-. exact Gt.
+    - apply path_eqb_neq in Etf. rewrite (get_rename_file fb tmp file _ fc file Gt Etf E3), path_eqb_refl. reflexivity. }
+  unfold doc_load. simpl. unfold exec_res. simpl. rewrite (Hg file eq_refl), Hf. simpl. reflexivity.
+Qed.
